@@ -12,9 +12,13 @@ CONSTANTS
     MaxTasks = 0
     MaxDepth = 3
     Panics = TRUE
+    Discards = FALSE
     MaxSpans = 3
     IncomingKinds <- MC_IncBoth
     WithLazy = FALSE
+    HasRng = TRUE
+    ExplicitKinds <- MC_ExNone
+    PushLastWins = TRUE
     WithCancel = FALSE
     CancelOwnIds = FALSE
     CtxForms <- MC_Forms
